@@ -7,7 +7,7 @@ Model: `Model/Bincode.lean` (the bincode 1.3 wire format used by the generated c
 Property theorems (names without the `aux_` prefix):
   decode_consumes_exactly, decode_encode, deserialize_ignores_trailing, encode_injective,
   recv_send_plain, recv_send_tagged, memberId_roundtrip, memberId_payload_roundtrip,
-  route_only_addressee, route_missing_key_panics, cluster_delivery
+  route_only_addressee, route_missing_key_panics, cluster_delivery, o2m_delivery, m2o_delivery
 -/
 import HvNet.Model.Net
 namespace HvNet
@@ -370,4 +370,49 @@ example : (Val.char 0x20AC).encode = [0xE2, 0x82, 0xAC] := by decide
 /-- routing: three sinks, items for 2,0,2 -/
 example : Sinks.sendAll [(0, ([] : List Nat)), (1, []), (2, [])] [(2, 10), (0, 11), (2, 12)]
     = some [(0, [11]), (1, []), (2, [10, 12])] := by decide
+/-- process -> cluster: every member receives exactly the values addressed to it, in order -/
+theorem o2m_delivery {D : Type} (t : Ty) (members : List Nat) (items : List (MemberId D × Val))
+    (hm : members.Nodup)
+    (hd : ∀ it ∈ items, it.1.inner.raw ∈ members)
+    (hw : ∀ it ∈ items, it.2.wt t = true) :
+    o2mDeliver t members items =
+      some (members.map fun m => (m, (items.filter (fun it => it.1.inner.raw = m)).map Prod.snd)) := by
+  unfold o2mDeliver
+  have keys : (members.map fun m => ((⟨m⟩ : Tagless), ([] : List (List Nat)))).map Prod.fst
+      = members.map Tagless.mk := by simp [List.map_map, Function.comp_def]
+  have hn : ((members.map fun m => ((⟨m⟩ : Tagless), ([] : List (List Nat)))).map Prod.fst).Nodup := by
+    rw [keys]
+    exact aux_nodup_mk members hm
+  have hk : ∀ it ∈ items.map sendDemux,
+      it.1 ∈ (members.map fun m => ((⟨m⟩ : Tagless), ([] : List (List Nat)))).map Prod.fst := by
+    intro it hit
+    rw [keys]
+    obtain ⟨a, ha, rfl⟩ := List.mem_map.mp hit
+    exact List.mem_map.mpr ⟨a.1.inner.raw, hd a ha, by simp [sendDemux, MemberId.intoTagless]⟩
+  simp only [aux_sendAll_eq_map _ _ hk hn, List.map_map]
+  rw [aux_mapM'_some _ (fun (p : Tagless × List (List Nat)) =>
+        (p.1.raw, (items.filter (fun it => it.1.inner.raw = p.1.raw)).map Prod.snd))]
+  · simp [List.map_map, Function.comp_def]
+  · intro p hp
+    obtain ⟨m, _, rfl⟩ := List.mem_map.mp hp
+    simp only [Function.comp_def, List.nil_append, List.filter_map, List.map_map]
+    rw [aux_mapM'_map_some _ _ (fun (it : MemberId D × Val) => it.2)]
+    · simp only [Option.some.injEq, Prod.mk.injEq, true_and]
+      congr 1
+      apply List.filter_congr
+      intro it _
+      obtain ⟨⟨⟨r⟩⟩, v⟩ := it
+      simp [sendDemux, MemberId.intoTagless]
+    · intro it hit
+      have := hw it (List.mem_filter.mp hit).1
+      simp [recvPlain, sendDemux, decode_encode _ _ this]
+
+/-- cluster member -> process: the process receives every value, in order, tagged with the sender -/
+theorem m2o_delivery {S : Type} (t : Ty) (sender : Nat) (vals : List Val)
+    (hw : ∀ v ∈ vals, v.wt t = true) :
+    m2oDeliver (S := S) t sender vals = some (vals.map fun v => ((⟨⟨sender⟩⟩ : MemberId S), v)) := by
+  unfold m2oDeliver
+  apply aux_mapM'_some
+  intro v hv
+  simp [recvTagged, sendPlain, decode_encode _ _ (hw v hv), MemberId.fromTagless]
 end HvNet
